@@ -7,6 +7,8 @@ import (
 	"go/token"
 	"go/types"
 	"path/filepath"
+	"regexp"
+	"sort"
 	"strings"
 
 	"golang.org/x/tools/go/types/typeutil"
@@ -313,6 +315,9 @@ func parserCheck(c *Check, id string) {
 		}
 		c.Ob("lexer-appends-eof-last", "lexer.generateTokens", ok, r.pos(ir.Info.Decl.Pos()), "advance(0, eof) is the last action before returning the (validated) tokens")
 	}
+	// (G) nil-result contract of parse helpers: a helper that may succeed with a nil result only does so when it
+	// was not forced; callers that use the result without a nil test force it
+	nilContract(c, r, files)
 	c.Set("consumption_sites", nConsume)
 	if id == "C19" {
 		c.Floor("consumption-guarded", 20)
@@ -491,4 +496,282 @@ func consumptionGuarded(info *types.Info, fi *FuncInfo, stack astPath, call *ast
 		return false, "guarded by `" + guardDesc + "` but " + other + " consumes tokens of " + recv + " in between"
 	}
 	return true, "guarded by `" + guardDesc + "`"
+}
+
+// nilContract: for every parser function F returning (*T, …, error):
+//   - each `return nil, …, nil` (success without a result) is either preceded in its block by `if <bool param> { return … error }`
+//     (so it is unreachable when the parameter is true), or guarded by `r == nil` where r is the result of a call to a
+//     function with the same contract that received that parameter (or true) in the same position;
+//   - every call site whose result is dereferenced without a nil test passes true for that parameter, or the callee never
+//     returns nil on success.
+func nilContract(c *Check, r *repoCtx, files map[string]bool) {
+	type summary struct {
+		fi        *FuncInfo
+		ir        *FuncIR
+		forceIdx  int    // index of the bool parameter that forbids the nil result (-1: none)
+		forceName string // canonical name of that parameter
+		mayNil    string // "never" | "unless-forced" | "always"
+	}
+	sums := map[string]*summary{}
+	var names []string
+	for name, fi := range r.funcs {
+		if !strings.HasPrefix(name, "internal/tlast.") || fi.Decl.Body == nil {
+			continue
+		}
+		if !files[filepath.Base(r.co.Fset.Position(fi.Decl.Pos()).Filename)] {
+			continue
+		}
+		sig := fi.Obj.Type().(*types.Signature)
+		if sig.Results().Len() < 2 {
+			continue
+		}
+		if _, isPtr := sig.Results().At(0).Type().Underlying().(*types.Pointer); !isPtr {
+			continue
+		}
+		if sig.Results().At(sig.Results().Len()-1).Type().String() != "error" {
+			continue
+		}
+		sums[fi.Name()] = &summary{fi: fi, ir: buildFuncIR(fi, r.co.allFuncs(), r.co.Fset), forceIdx: -1, mayNil: "never"}
+		names = append(names, fi.Name())
+	}
+	sort.Strings(names)
+	paramNames := func(fi *FuncInfo) []string {
+		var out []string
+		k := 0
+		for _, fl := range fi.Decl.Type.Params.List {
+			for range fl.Names {
+				k++
+				if k == 1 {
+					out = append(out, "val")
+				} else {
+					out = append(out, fmt.Sprintf("val%d", k))
+				}
+			}
+		}
+		return out
+	}
+	isNilSuccess := func(rt *ReturnN) bool {
+		return len(rt.Vals) >= 2 && rt.Vals[0] == "nil" && rt.Vals[len(rt.Vals)-1] == "nil"
+	}
+	// iterate: classify nil-success returns
+	for round := 0; round < 3; round++ {
+		for _, nm := range names {
+			s := sums[nm]
+			params := paramNames(s.fi)
+			state := "never"
+			var visit func(b Block, forcedOut map[string]bool, nilOf map[string]*CallN)
+			visit = func(b Block, forcedOut map[string]bool, nilOf map[string]*CallN) {
+				forced := map[string]bool{}
+				for k, v := range forcedOut {
+					forced[k] = v
+				}
+				calls := map[string]*CallN{}
+				for k, v := range nilOf {
+					calls[k] = v
+				}
+				for _, n := range b {
+					switch n := n.(type) {
+					case *CallN:
+						if n.Fn != nil && len(n.Results) > 0 {
+							calls[n.Results[0]] = n
+						}
+					case *IfN:
+						cond := n.Cond.String()
+						// `if p { return …, err }` makes the rest unreachable when p is true
+						if endsInExit(n.Then) && len(n.Else) == 0 {
+							for _, pn := range params {
+								if cond == pn {
+									visit(n.Then, forced, calls)
+									forced[pn] = true
+									goto next
+								}
+							}
+						}
+						{
+							thenNil := map[string]*CallN{}
+							for k, v := range calls {
+								thenNil[k] = v
+							}
+							visit(n.Then, forced, thenNil)
+							visit(n.Else, forced, calls)
+							// a nil-success return under `!(L != nil)`: classify through the callee
+							if m := regexp.MustCompile(`^!\((L\d+:\w+) != nil\)$`).FindStringSubmatch(cond); m != nil {
+								_ = m
+							}
+						}
+					case *SwitchN:
+						for _, cs := range n.Cases {
+							visit(cs.Body, forced, calls)
+						}
+					case *LoopN:
+						visit(n.Body, forced, calls)
+					case *ReturnN:
+						if !isNilSuccess(n) {
+							continue
+						}
+						if len(forced) > 0 {
+							// unreachable when the forcing parameter is true
+							for pn := range forced {
+								for i, p2 := range params {
+									if p2 == pn {
+										s.forceIdx, s.forceName = i, pn
+									}
+								}
+							}
+							if state == "never" {
+								state = "unless-forced"
+							}
+							continue
+						}
+						state = "always"
+					}
+				next:
+				}
+			}
+			// pre-pass: nil-success returns guarded by `!(L != nil)` where L comes from a contract call
+			guardedOK := map[*ReturnN]bool{}
+			walkBlock(s.ir.Body, nil, func(n Node, gs []Guard) {
+				rt, ok := n.(*ReturnN)
+				if !ok || !isNilSuccess(rt) {
+					return
+				}
+				for _, g := range gs {
+					m := regexp.MustCompile(`^!\((L\d+:\w+) != nil\)$`).FindStringSubmatch(g.Text)
+					if g.Kind != "if" || m == nil {
+						continue
+					}
+					// find the defining call
+					var def *CallN
+					walkBlock(s.ir.Body, nil, func(k Node, _ []Guard) {
+						if cn, ok := k.(*CallN); ok && cn.Fn != nil && len(cn.Results) > 0 && cn.Results[0] == m[1] && cn.Pos < rt.Pos {
+							def = cn
+						}
+					})
+					if def == nil {
+						continue
+					}
+					callee := sums[funcDisplayName(def.Fn)]
+					if callee == nil {
+						continue
+					}
+					switch callee.mayNil {
+					case "never":
+						guardedOK[rt] = true // dead code, harmless
+					case "unless-forced":
+						if callee.forceIdx < len(def.Args) {
+							a := def.Args[callee.forceIdx]
+							if a == "true" {
+								guardedOK[rt] = true
+							} else if a == s.forceName && s.forceName != "" || a == paramNames(s.fi)[min(callee.forceIdx, len(paramNames(s.fi))-1)] && callee == s {
+								guardedOK[rt] = true // nil only when this function itself was not forced
+								if s.forceIdx < 0 && callee == s {
+									s.forceIdx, s.forceName = callee.forceIdx, a
+								}
+							}
+						}
+					}
+				}
+			})
+			// now the main classification, skipping returns justified above
+			var visit2 func(b Block, forced map[string]bool)
+			visit2 = func(b Block, forcedIn map[string]bool) {
+				forced := map[string]bool{}
+				for k, v := range forcedIn {
+					forced[k] = v
+				}
+				for _, n := range b {
+					switch n := n.(type) {
+					case *IfN:
+						cond := n.Cond.String()
+						handled := false
+						if endsInExit(n.Then) && len(n.Else) == 0 {
+							for _, pn := range params {
+								if cond == pn {
+									visit2(n.Then, forced)
+									forced[pn] = true
+									handled = true
+								}
+							}
+						}
+						if !handled {
+							visit2(n.Then, forced)
+							visit2(n.Else, forced)
+						}
+					case *SwitchN:
+						for _, cs := range n.Cases {
+							visit2(cs.Body, forced)
+						}
+					case *LoopN:
+						visit2(n.Body, forced)
+					case *ReturnN:
+						if !isNilSuccess(n) {
+							continue
+						}
+						if guardedOK[n] {
+							if state == "never" && s.forceName != "" {
+								state = "unless-forced"
+							}
+							continue
+						}
+						if len(forced) > 0 {
+							for pn := range forced {
+								for i, p2 := range params {
+									if p2 == pn {
+										s.forceIdx, s.forceName = i, pn
+									}
+								}
+							}
+							if state == "never" {
+								state = "unless-forced"
+							}
+							continue
+						}
+						state = "always"
+					}
+				}
+			}
+			_ = visit
+			visit2(s.ir.Body, nil)
+			s.mayNil = state
+		}
+	}
+	// call sites: result dereferenced without a nil test
+	nsites := 0
+	for name, fi := range r.funcs {
+		if !strings.HasPrefix(name, "internal/tlast.") || fi.Decl.Body == nil || !files[filepath.Base(r.co.Fset.Position(fi.Decl.Pos()).Filename)] {
+			continue
+		}
+		ir := buildFuncIR(fi, r.co.allFuncs(), r.co.Fset)
+		txt := blockText(ir.Body)
+		walkBlock(ir.Body, nil, func(n Node, gs []Guard) {
+			cn, ok := n.(*CallN)
+			if !ok || cn.Fn == nil || len(cn.Results) == 0 {
+				return
+			}
+			callee := sums[funcDisplayName(cn.Fn)]
+			if callee == nil || callee.mayNil == "never" {
+				return
+			}
+			l := cn.Results[0]
+			if !strings.HasPrefix(l, "L") {
+				return
+			}
+			deref := regexp.MustCompile(regexp.QuoteMeta(l) + `\.\w`).MatchString(txt)
+			if !deref {
+				return
+			}
+			tested := strings.Contains(txt, "("+l+" != nil)")
+			forcedArg := callee.mayNil == "unless-forced" && callee.forceIdx < len(cn.Args) && cn.Args[callee.forceIdx] == "true"
+			nsites++
+			c.Ob("nil-result-contract/call-site", fi.Name()+"→"+funcDisplayName(cn.Fn)+"/"+stripLocalNo(l), tested || forcedArg, r.pos(cn.Pos), fmt.Sprintf("%s may succeed with a nil result (%s); its result %s is dereferenced here: nil-tested=%v, forced=%v", funcDisplayName(cn.Fn), callee.mayNil, l, tested, forcedArg))
+		})
+	}
+	for _, nm := range names {
+		s := sums[nm]
+		if s.mayNil != "never" {
+			c.Info("nil-result contract: %s may return (nil, …, nil): %s (forcing parameter %q)", nm, s.mayNil, s.forceName)
+		}
+	}
+	c.Set("nil_contract_functions", len(names))
+	c.Set("nil_contract_deref_sites", nsites)
 }
